@@ -95,6 +95,15 @@ CHECKS = {
             'mj_forward (keeps warning statistics). Sizes fit int. Not decided: finiteness of the state after a whole mj_step; the bad-ctrl '
             'check inside mj_fwdActuation.',
             'contracts + inductive loop invariants, z3 QF_FP / LIA + arrays + quantifiers'),
+    'C50': ('DESIGN.md section 4 / C50',
+            'Deductive proof of the capacity half of the property: acquireGeom returns NULL exactly when ngeom >= maxgeom and then sets '
+            'the status flag, otherwise it returns the slot geoms+ngeom and every write it makes lies inside the geoms buffer (bounds '
+            'obligations), earlier geoms untouched; releaseGeom increments by one only for the most recently acquired slot and keeps '
+            'ngeom <= maxgeom; a typestate VC over all 40 call sites proves the result is NULL-checked before any use; an AST frame '
+            'scan proves nothing else writes the geom counter. Together: the scene never holds more than maxgeom geoms.',
+            'Trusted: VC generator, typestate analysis, clang, z3/cvc5. Assumed: mjv_initGeom writes only its geom; plugin callbacks '
+            'respect the discipline. Not decided (listed): that the scene holds exactly the enabled geoms with their poses, determinism.',
+            'contracts + typestate VC + frame scan over the clang AST, z3 LIA+arrays'),
 }
 
 NA = {
